@@ -98,6 +98,7 @@ class Obs:
     installed = False
     active = False
     root = ''
+    root2 = ''             # a second temp tree, outside the first one (working directory "outside the tree")
     events: list = []       # ('open', realpath) | ('req', url)
     served: list = []
     access: list = []       # recorded access_control calls
@@ -118,7 +119,8 @@ def _hook(event: str, args: tuple) -> None:
                 rp = os.path.join(os.path.realpath(os.path.dirname(os.path.abspath(p))), os.path.basename(p))
             except (OSError, ValueError):
                 return
-            if rp == Obs.root or rp.startswith(Obs.root + os.sep):
+            if rp == Obs.root or rp.startswith(Obs.root + os.sep) or \
+                    (Obs.root2 and (rp == Obs.root2 or rp.startswith(Obs.root2 + os.sep))):
                 Obs.events.append(('open', rp))
     elif event == 'urllib.Request':
         Obs.events.append(('req', str(args[0])))
@@ -303,9 +305,22 @@ class Tree:
         self.table = table
         self.sand = os.path.join(self.root, 'sand')
         self.twins = build_twins(self)
+        # a second tree OUTSIDE the first (for runs whose working directory / sandbox is not under R)
+        self.root2 = os.path.realpath(tempfile.mkdtemp(prefix='c12b-', dir='/tmp'))
+        for d in ('', 'sub'):
+            full = os.path.join(self.root2, d)
+            os.makedirs(full, exist_ok=True)
+            for what, leaf in (('inc', leaf_inc), ('imp', leaf_imp)):
+                n = 't2_' + what + '_' + (d or 'root')
+                with open(os.path.join(full, what + '.xsd'), 'w') as f:
+                    f.write(leaf(n))
+                self.owner[n] = ('file', os.path.join(full, what + '.xsd'))
+        Obs.root2 = self.root2
 
     def close(self) -> None:
         shutil.rmtree(self.root, ignore_errors=True)
+        shutil.rmtree(self.root2, ignore_errors=True)
+        Obs.root2 = ''
 
 
 def spellings(R: str, f: str) -> list[tuple[str, str]]:
@@ -556,7 +571,10 @@ def evaluate(ctx: Ctx, tree: Tree, case: dict, obs: dict) -> None:
            # their sandbox is derived from their own location (call sites of the known findings)
            'selfbase': [{'url': r['url'] or '', 'callers': r['callers']}
                         for r in obs['inits'] if r['allow'] == 'sandbox' and r['base'] is None
-                        and unquote(r['url'] or '') != 'file://' + obs.get('main_path', '')]}
+                        and unquote(r['url'] or '') != 'file://' + obs.get('main_path', '')],
+           # resources constructed with allow='all' although the configured mode is another one
+           'allow_all': [{'url': r['url'] or '', 'callers': r['callers']}
+                         for r in obs['inits'] if r['allow'] == 'all' and allow != 'all']}
 
     def fail(what: str) -> None:
         fid = known_match(case, {'what': what, **det})
@@ -632,12 +650,33 @@ def load_findings(ctx: Ctx) -> None:
             ctx.known.append(e)
 
 
+def match_f5(case: dict, detail: dict) -> Optional[str]:
+    """C12-F5: mechanism parse-xmldocument; EVERY fetch of the run (request, served URL, opened file) is the url of an
+    XMLResource that the library constructed with allow='all' (the configured mode being another one) from
+    XMLResource.parse() rebuilding an XmlDocument."""
+    if not str(case.get('mech', '')).endswith('parse-xmldocument') or case.get('allow') == 'all':
+        return None
+    recs = [r for r in detail.get('allow_all', ()) if 'xml_resource.parse' in r['callers'] and
+            'documents.__init__' in r['callers']]
+    urls = {r['url'] for r in recs}
+    paths = {url_path(u) for u in urls if not is_remote_scheme(u)}
+    fetched = list(detail.get('requests', ())) + list(detail.get('served', ()))
+    if not recs or not (fetched or detail.get('opened')):
+        return None
+    if all(u in urls for u in fetched) and all(p in paths for p in detail.get('opened', ())):
+        return 'C12-F5'
+    return None
+
+
 def known_match(case: dict, detail: dict) -> Optional[str]:
     """Exact rules of notes/findings/C12.json.
 
     C12-F2 / C12-F3: allow='sandbox', no explicit base_url; every file opened outside the sandbox is the URL
     of an XMLResource that the library constructed with base_url=None (so that its sandbox was derived from
     its own location) from the finding's call site.  Anything else opened outside the sandbox is a violation."""
+    f5 = match_f5(case, detail)
+    if f5:
+        return f5
     if case.get('allow') != 'sandbox' or detail.get('what') not in SANDBOX_WHATS:
         return None
     outside = detail.get('outside')
@@ -1325,6 +1364,7 @@ def explore(ctx: Ctx, drv: Optional[Driver], full: bool) -> None:
         newline_cases(ctx, tree, batch if drv is not None else None)
         remote_base_cases(ctx, tree, batch if drv is not None else None)
         twin_cases(ctx, tree, batch if drv is not None else None)
+        degenerate_base_cases(ctx, tree, batch if drv is not None else None)
         trace_cases(ctx, drv, tree)
         render_cases(ctx, drv, tree)
         coding_cases(ctx, drv)
@@ -1405,23 +1445,43 @@ def newline_cases(ctx: Ctx, tree: Tree, batch: Optional[Batch]) -> None:
                     collect_model_requests(batch, case, obs, tree.sand)
 
 
-def run_remote_base(tree: Tree, allow: str, kind: str, mech: str, loc: str, base: str, idx: int) -> dict:
-    """one case of the remote-base families on the real code: main source of `kind` with a REMOTE base_url"""
+_PLAIN_SCHEMA: list = []
+
+
+def plain_schema() -> Any:
+    if not _PLAIN_SCHEMA:
+        from xmlschema import XMLSchema10
+        _PLAIN_SCHEMA.append(XMLSchema10(leaf_inc('m')))
+    return _PLAIN_SCHEMA[0]
+
+
+def run_remote_base(tree: Tree, allow: str, kind: str, mech: str, loc: str, base: Any, idx: int,
+                    sandbox_dir: Optional[str] = None, main_dir: Optional[str] = None) -> dict:
+    """one case on the real code with an explicit `base_url` of any accepted type (remote-base and degenerate-base
+    families); kind 'path': the main document is written into `main_dir`; mechanisms parse-resource /
+    parse-xmldocument: a resource / document built from text is re-parsed from `loc`"""
     import xml.etree.ElementTree as ET
     import xmlschema
-    from xmlschema import XMLSchema10, XMLSchema11
+    from xmlschema import XMLSchema10, XMLSchema11, XMLResource, XmlDocument
     from xmlschema.exceptions import XMLSchemaException
-    text = main_text(mech, loc)
+    is_parse = mech.startswith('parse-')
+    text = '<m>x</m>' if is_parse else main_text(mech, loc)
     name = f'rb_{idx % 5}.' + ('xml' if mech.startswith('hint') else 'xsd')
     Obs.table = dict(tree.table)
     Obs.table[f'/sand/{name}'] = text.encode()
     kwargs: dict[str, Any] = {'allow': allow, 'base_url': base}
-    if kind == 'text':
+    main_path = ''
+    if kind == 'text' or is_parse:
         src: Any = text
     elif kind == 'fileobj':
         src = io.BytesIO(text.encode())
     elif kind == 'element':
         src = ET.fromstring(text)
+    elif kind == 'path':
+        main_path = os.path.join(main_dir or tree.sand, 'dg_' + name)
+        with open(main_path, 'w') as f:
+            f.write(text)
+        src = main_path
     else:
         src = f'{HOST}/sand/{name}'
     if mech == 'uri-mapper':
@@ -1429,13 +1489,19 @@ def run_remote_base(tree: Tree, allow: str, kind: str, mech: str, loc: str, base
     if mech == 'locations':
         kwargs['locations'] = {'urn:imp': loc}
     Obs.events, Obs.served, Obs.access, Obs.inits = [], [], [], []
-    obs: dict[str, Any] = {'outcome': 'ok', 'elements': [], 'sandbox_dir': None, 'main_path': ''}
+    obs: dict[str, Any] = {'outcome': 'ok', 'elements': [], 'sandbox_dir': sandbox_dir, 'main_path': main_path}
     schema = None
     with warnings.catch_warnings():
         warnings.simplefilter('ignore')
         Obs.active = True
         try:
-            if mech == 'hint-fetch':
+            if mech == 'parse-resource':
+                res = XMLResource(src, **kwargs)
+                res.parse(loc)
+            elif mech == 'parse-xmldocument':
+                doc = XmlDocument(src, schema=plain_schema(), validation='skip', **kwargs)
+                doc.parse(loc)
+            elif mech == 'hint-fetch':
                 try:
                     xmlschema.validate(src, **kwargs)
                 except xmlschema.XMLSchemaValidationError:
@@ -1497,6 +1563,85 @@ def remote_base_cases(ctx: Ctx, tree: Tree, batch: Optional[Batch]) -> None:
                             ctx.count('impl-access:' + a['decision'])
                         if batch is not None:
                             collect_model_requests(batch, case, obs, tree.sand)
+
+
+DEGENERATE_MECHS = ['include', 'redefine', 'override', 'import', 'uri-mapper', 'locations', 'locations-lazy', 'hint-fetch',
+                    'hint-dynamic', 'parse-resource', 'parse-xmldocument']
+
+
+def degenerate_bases(cwd: str) -> list[tuple[str, Any, str]]:
+    """(label, base_url value, directory it denotes) — every falsy / degenerate / relative / non-str value that
+    BaseUrlOption accepts, for the working directory `cwd`"""
+    import pathlib
+    up = os.path.dirname(cwd)
+    out: list[tuple[str, Any, str]] = [
+        ('empty', '', cwd), ('blank', ' ', cwd), ('dot', '.', cwd), ('dot-slash', './', cwd), ('file-colon', 'file:', cwd),
+        ('cwd', cwd, cwd), ('cwd-slash', cwd + '/', cwd), ('cwd-url-slash', 'file://' + cwd + '/', cwd),
+        ('cwd-dotdot', cwd + '/sub/..', cwd), ('rel-up-down', '../' + os.path.basename(cwd), cwd),
+        ('bytes-empty', b'', cwd), ('bytes-dot', b'.', cwd), ('bytes-cwd', os.fsencode(cwd), cwd),
+        ('pathlib-dot', pathlib.Path('.'), cwd), ('pathlib-cwd', pathlib.Path(cwd), cwd),
+        ('pathlib-empty', pathlib.PurePosixPath(''), cwd),
+    ]
+    if os.path.isdir(os.path.join(cwd, 'sub')):
+        sub = os.path.join(cwd, 'sub')
+        out += [('rel-sub', 'sub', sub), ('rel-sub-slash', 'sub/', sub), ('rel-dot-sub', './sub/.', sub),
+                ('bytes-sub', b'sub', sub), ('pathlib-sub', pathlib.Path('sub'), sub)]
+    if up.startswith('/tmp/'):
+        out += [('dotdot', '..', up), ('dotdot-slash', '../', up)]
+    return out
+
+
+def degenerate_base_cases(ctx: Ctx, tree: Tree, batch: Optional[Batch]) -> None:
+    """allow mode x DEGENERATE base_url ('' , ' ', '.', './', 'file:', trailing slash, relative, bytes, pathlib) x working
+    directory (inside the tree, deeper inside, in a sibling of the sandbox, in a second tree outside the first) x
+    source kind x mechanism (incl. XMLResource.parse / XmlDocument.parse) x target inside / outside the directory
+    that the base denotes.  base_url='' is a base (the working directory), not "no base"."""
+    R = tree.root
+    old_cwd = os.getcwd()
+    pool = [os.path.join(R, 'sand'), os.path.join(R, 'sand/sub'), os.path.join(R, 'sand_evil'), os.path.join(R, 'other'),
+            tree.root2, os.path.join(tree.root2, 'sub'), R]
+    kinds = ['text', 'fileobj', 'element', 'path']
+    idx = 0
+    try:
+        for ci, cwd in enumerate([tree.sand, os.path.join(R, 'other'), tree.root2]):
+            os.chdir(cwd)
+            for bi, (label, base, E) in enumerate(degenerate_bases(cwd)):
+                outside_dirs = [d for d in pool if not inside(E, d)]
+                if not ctx.quick():
+                    outside_dirs = outside_dirs[:2] + outside_dirs[-2:-1]     # in-tree siblings and the second tree
+                for mi, mech in enumerate(DEGENERATE_MECHS):
+                    f = 'inc.xsd' if mech in ('include', 'redefine', 'override', 'uri-mapper', 'parse-resource',
+                                              'parse-xmldocument') else 'imp.xsd'
+                    targets = [('in', f)]
+                    for oi, d in enumerate(outside_dirs):
+                        P = os.path.join(d, f)
+                        sp = [('out-relative', os.path.relpath(P, E)), ('out-absolute', P), ('out-file-url', 'file://' + P)]
+                        targets += sp if not ctx.quick() else [sp[(ci + bi + mi + oi) % 3]]
+                    if ctx.quick():
+                        k = (ci + bi + mi) % max(1, len(targets) - 1)
+                        targets = [targets[0], targets[1 + k]] if len(targets) > 1 else targets
+                    for ti, (tcls, loc) in enumerate(targets):
+                        modes = MODES if not ctx.quick() else ['sandbox', MODES[(ci + bi + mi + ti) % len(MODES)]]
+                        for allow in dict.fromkeys(modes):
+                            ks = kinds if not ctx.quick() else [kinds[(ci + bi + mi + ti) % len(kinds)]]
+                            for kind in ks:
+                                idx += 1
+                                case = {'allow': allow, 'kind': kind, 'mech': 'degenerate-base:' + mech,
+                                        'loc': loc.replace(R, '$R').replace(tree.root2, '$R2'), 'class': tcls,
+                                        'base': label, 'cwd': cwd.replace(R, '$R').replace(tree.root2, '$R2'), 'idx': idx}
+                                obs = run_remote_base(tree, allow, kind, mech, loc, base, idx,
+                                                      sandbox_dir=E if allow == 'sandbox' else None, main_dir=E)
+                                evaluate(ctx, tree, case, obs)
+                                ctx.case(case, any(a['allow'] != 'all' and a['url'] is not None for a in obs['access']),
+                                         tag='mech:degenerate-base')
+                                ctx.count(f'degenerate-base:{label}')
+                                ctx.count('outcome:' + obs['outcome'])
+                                for a in obs['access']:
+                                    ctx.count('impl-access:' + a['decision'])
+                                if batch is not None:
+                                    collect_model_requests(batch, case, obs, cwd)
+    finally:
+        os.chdir(old_cwd)
 
 
 class use_sand:
@@ -1665,6 +1810,14 @@ def replay(ctx: Ctx, obj: dict) -> int:
             sb = case['sb'].replace('$R', tree.root)
             obs = run_twin(tree, sb, case['allow'], case['kind'], case['mech'].split(':', 1)[1], loc, 0)
             tree.sand = sb
+        elif case['mech'].startswith('degenerate-base:'):
+            cwd = case['cwd'].replace('$R2', tree.root2).replace('$R', tree.root)
+            os.chdir(cwd)
+            label, base, E = [b for b in degenerate_bases(cwd) if b[0] == case['base']][0]
+            loc = case['loc'].replace('$R2', tree.root2).replace('$R', tree.root)
+            print('base_url =', repr(base), ' cwd =', case['cwd'], ' denotes', E.replace(tree.root2, '$R2').replace(tree.root, '$R'))
+            obs = run_remote_base(tree, case['allow'], case['kind'], case['mech'].split(':', 1)[1], loc, base,
+                                  case.get('idx', 0), sandbox_dir=E if case['allow'] == 'sandbox' else None, main_dir=E)
         elif case['mech'].startswith('remote-base:'):
             obs = run_remote_base(tree, case['allow'], case['kind'], case['mech'].split(':', 1)[1], loc, case['base'],
                                   case.get('idx', 0))
